@@ -145,13 +145,13 @@ Definition Allocate (w : cworld) (p : bool) : cworld * blk :=
     end in
   (add_live w p bk, bk).                                                              (* 304 *)
 
-(* Deallocate 308-325 (the counter / ghost update of line 324 is done first; it is independent of the rest) *)
+(* Deallocate 308-325 (the counter / ghost update of line 324 is done right after the flush; it is independent of the rest) *)
 Definition Deallocate (w : cworld) (p : bool) (bk : blk) : cworld :=
-  let w := remove_live w p bk in                                                      (* 324 *)
   if uc then
     let w := if CF <=? lenz (cache (getp w p)) then flush w p else w in               (* 314-315 *)
+    let w := remove_live w p bk in                                                    (* 324 *)
     set_cache w p (bk :: cache (getp w p))                                            (* 316-318 *)
-  else pvDeleteBlock w p bk.                                                          (* 322 *)
+  else pvDeleteBlock (remove_live w p bk) p bk.                                       (* 322, 324 *)
 
 (* pvDeleteBuffer for every buffer of a list *)
 Definition return_all (w : cworld) (l : list Z) : cworld := foldl (fun w b => add_returned (set_bytes w b 0 0) b) l w.
